@@ -95,6 +95,8 @@ def run_case(case):
             for nofail in (True, False):
                 if common.TIER == 'quick' and not nofail and limit not in (None, 0):
                     continue
+                if 'C03/options=%s' % ''.join('HSDC'[i] if opts[i] else '-' for i in range(4)) in viol:
+                    continue        # this option set already has its counterexample
 
                 def path(ctx, opts=opts, limit=limit, nofail=nofail):
                     obl = Obl(ctx)
@@ -106,7 +108,7 @@ def run_case(case):
                         obl.failed.append(('Taster(headers=%s, shape=%s, data=%s, coords=%s, limit=%s, nofail=%s) on a well-formed plotfile: %s (%s)'
                                            % (opts + (limit, nofail, outcome, detail.strip().splitlines()[-1] if detail.strip() else '')), None))
                     return obl
-                results, exhaustive, stats = core.explore(path, max_paths=64)
+                results, exhaustive, stats = core.explore(path, max_paths=64, stop_after_failures=1)
                 res.add_explore(results, exhaustive, stats)
                 nruns += 1
                 for ctx, obl in results:
@@ -128,7 +130,7 @@ def run_case(case):
                 obl.failed.append(('Taster(headers=%s, shape=%s, data=%s, coords=%s, limit=%s, nofail=%s, verbose=%s) on a well-formed plotfile: %s (%s)'
                                    % (opts + (limit, nofail, verbose, outcome, detail.strip().splitlines()[-1] if detail.strip() else '')), None))
             return obl
-        results, exhaustive, stats = core.explore(vpath, max_paths=64)
+        results, exhaustive, stats = core.explore(vpath, max_paths=64, stop_after_failures=1)
         res.add_explore(results, exhaustive, stats)
         nruns += 1
         for ctx, obl in results:
@@ -148,7 +150,7 @@ def run_case(case):
                     obl.failed.append(('Taster(%r, headers=%s, shape=%s, data=%s, coords=%s, limit=%s, nofail=%s) on a well-formed plotfile: %s (%s)'
                                        % ((spell,) + opts + (limit, nofail, outcome, detail.strip().splitlines()[-1] if detail.strip() else '')), None))
                 return obl
-            results, exhaustive, stats = core.explore(spath, max_paths=64)
+            results, exhaustive, stats = core.explore(spath, max_paths=64, stop_after_failures=1)
             res.add_explore(results, exhaustive, stats)
             nruns += 1
             for ctx, obl in results:
@@ -167,7 +169,7 @@ def run_case(case):
             else:
                 obl.failed.append(('`%s` on a well-formed plotfile: %s (%s)' % (' '.join(cli_argv(opts, limit, nofail)), outcome, detail.strip().splitlines()[-1] if detail.strip() else ''), None))
             return obl
-        results, exhaustive, stats = core.explore(cpath, max_paths=64)
+        results, exhaustive, stats = core.explore(cpath, max_paths=64, stop_after_failures=1)
         res.add_explore(results, exhaustive, stats)
         nruns += 1
         for ctx, obl in results:
@@ -189,7 +191,7 @@ def run_case(case):
                 obl.failed.append(('Taster(%s, limit=%s, nofail=True) then Taster(headers=%s, shape=%s, data=%s, coords=%s, limit=%s, nofail=%s) on a well-formed plotfile: %s (%s)'
                                    % ((''.join('HSDC'[i] if prior[0][i] else '-' for i in range(4)), prior[1]) + opts + (limit, nofail, outcome, detail.strip().splitlines()[-1] if detail.strip() else '')), None))
             return obl
-        results, exhaustive, stats = core.explore(hpath, max_paths=64)
+        results, exhaustive, stats = core.explore(hpath, max_paths=64, stop_after_failures=1)
         res.add_explore(results, exhaustive, stats)
         nruns += 1
         for ctx, obl in results:
@@ -204,7 +206,7 @@ def run_case(case):
             fs.remove('/work/plt/%s%d/%s' % (ref.level_prefix, lv, ref.files(lv)[0][0]))
             fs.audit.clear()
         return taste_once(mods, ref, (True, True, False, False), None, True, ctx, mutate=rm)[0]
-    cres, _, _ = core.explore(canary, max_paths=2)
+    cres, _, _ = core.explore(canary, max_paths=2, stop_after_failures=1)
     res['canaries'] += 1
     if cres and cres[0][1] != 'good':
         res['canaries_fired'] += 1
@@ -236,9 +238,8 @@ def run_case(case):
                    "cli.Taster = spy\nsys.argv = ['taste', os.path.join(IN, 'plt')] + %r\nRESULT = 0.0\n"
                    "with contextlib.redirect_stdout(io.StringIO()):\n    try:\n        cli.main()\n    except SystemExit as e:\n        assert e.code in (None, 0), 'exit status %%r' %% (e.code,)\n"
                    "RESULT = 1.0 if built and bool(built[-1]) else 0.0\n" % (v['cli'][2:],))
-        d = replay_lib.make_tool_replay('C03', sig, v['what'], {'plt': (fs, '/work/plt')}, run,
-                                        {'kind': 'value', 'close': 1.0})
-        status, out = common.run_replay(d)
+        d, status, out = common.replay_portfolio(lambda: replay_lib.make_tool_replay('C03', sig, v['what'], {'plt': (fs, '/work/plt')}, run,
+                                        {'kind': 'value', 'close': 1.0}))
         v['replay'] = d
         if status == 'reproduced':
             res['violations'].append(v)
